@@ -10,6 +10,17 @@
     date <y> <m> <d>        civil.Date text and validity      → `t <hex> v 0|1`
     uuid <hex of 16 bytes>  UUID text                          → `t <hex>`
     norm <hex>              cbc.NormalizeCode (model)          → `t <hex>`
+    vcode <hex>             cbc.Code.Validate / Required + Validate (models) → `v 0|1 0|1`
+    vkey <hex>              cbc.Key.Validate (model)                    → `v 0|1`
+    vid <hex>               identity code: generic rules / Mexican rule → `v 0|1 0|1`
+    vext <n> (<keyhex> <valhex> <def>)…
+                            tax.Extensions.Validate (model)             → `v 0|1`
+    vtot <n> (<codehex> <m> (<keyhex> <countryhex> <k> (<keyhex> <valhex> <def>)…)…)…
+                            (*tax.Total).Validate (model)               → `v 0|1`
+                            <def> = `u` (key not defined) | `d <j> <codehex>… <p>` with the
+                            definition's codes and p = `-` (no pattern) | `0` | `1` (what Go's
+                            regexp says about this value: the pattern language of definitions
+                            is not modelled)
     static                  the three per-file checks of Props/C11, evaluated on the compiled
                             data → `files <n> bad <k> <pathhex:check>…`
 
@@ -19,6 +30,7 @@
 import GoblVerif.Model.Schema
 import GoblVerif.Model.SchemaLeaves
 import GoblVerif.Generated.Schemas
+import GoblVerif.Generated.SchemaFacts
 import Driver.Proto
 
 namespace Driver.C11
@@ -83,6 +95,80 @@ def staticReport : String :=
     (if formatsOk f.2 then [] else [hexStr (f.1.toString ++ ":formats_known")])
   s!"files {Generated.Schemas.files.length} bad {bad.length} {" ".intercalate bad}"
 
+/-! the validator models: argument parsing -/
+
+def b01 (b : Bool) : String := if b then "1" else "0"
+
+def hexCodes? (h : String) : Option (List Nat) := (unhexStr h).map codes
+
+def parseCodesN : Nat → List String → List (List Nat) → Option (List (List Nat) × List String)
+  | 0, r, acc => some (acc.reverse, r)
+  | n + 1, h :: r, acc => match hexCodes? h with
+    | some c => parseCodesN n r (c :: acc)
+    | none => none
+  | _ + 1, [], _ => none
+
+/-- `<def>`: `u` | `d <j> <codehex>… <p>` -/
+def parseDef : List String → Option (Option ExtKeyDef × List String)
+  | "u" :: r => some (none, r)
+  | "d" :: j :: r =>
+    match parseNat? j with
+    | none => none
+    | some j => match parseCodesN j r [] with
+      | some (cs, "-" :: r') => some (some ⟨cs, none⟩, r')
+      | some (cs, "0" :: r') => some (some ⟨cs, some fun _ => false⟩, r')
+      | some (cs, "1" :: r') => some (some ⟨cs, some fun _ => true⟩, r')
+      | _ => none
+  | _ => none
+
+/-- extension members with the definition of each key: (key, value, definition) -/
+def parseExt : Nat → List String → List (List Nat × List Nat × Option ExtKeyDef) →
+    Option (List (List Nat × List Nat × Option ExtKeyDef) × List String)
+  | 0, r, acc => some (acc.reverse, r)
+  | n + 1, k :: v :: r, acc =>
+    match hexCodes? k, hexCodes? v, parseDef r with
+    | some k, some v, some (d, r') => parseExt n r' ((k, v, d) :: acc)
+    | _, _, _ => none
+  | _ + 1, _, _ => none
+
+/-- `Extensions.Validate` with the definitions attached to the members (a Go map has each key once) -/
+def extModel (ms : List (List Nat × List Nat × Option ExtKeyDef)) : Bool :=
+  ms.all (fun m => keyValidate m.1) && ms.all (fun m => extValueValidate m.2.2 m.2.1)
+
+structure RateIn where
+  key : List Nat
+  country : List Nat
+  ext : List (List Nat × List Nat × Option ExtKeyDef)
+
+def parseRates : Nat → List String → List RateIn → Option (List RateIn × List String)
+  | 0, r, acc => some (acc.reverse, r)
+  | n + 1, k :: c :: m :: r, acc =>
+    match hexCodes? k, hexCodes? c, parseNat? m with
+    | some k, some c, some m => match parseExt m r [] with
+      | some (ext, r') => parseRates n r' (⟨k, c, ext⟩ :: acc)
+      | none => none
+    | _, _, _ => none
+  | _ + 1, _, _ => none
+
+def parseCats : Nat → List String → List (List Nat × List RateIn) → Option (List (List Nat × List RateIn) × List String)
+  | 0, r, acc => some (acc.reverse, r)
+  | n + 1, c :: m :: r, acc =>
+    match hexCodes? c, parseNat? m with
+    | some c, some m => match parseRates m r [] with
+      | some (rates, r') => parseCats n r' ((c, rates) :: acc)
+      | none => none
+    | _, _ => none
+  | _ + 1, _, _ => none
+
+def taxCountries : List (List Nat) := Generated.SchemaFacts.goTaxCountries.map NStr.toCodes
+
+/-- `(*tax.Total).Validate`: the definitions travel with the members, so the lookup function of
+    `Leaves.totalValidate` is instantiated per rate -/
+def totalModel (cats : List (List Nat × List RateIn)) : Bool :=
+  cats.all fun ct =>
+    requiredCode ct.1 && !ct.2.isEmpty &&
+    ct.2.all fun rt => keyValidate rt.key && taxCountryValidate taxCountries rt.country && extModel rt.ext
+
 def handle (toks : List String) : String :=
   match toks with
   | "val" :: id :: rest =>
@@ -120,6 +206,30 @@ def handle (toks : List String) : String :=
   | ["norm", h] =>
     match unhexStr h with
     | some s => s!"t {hexCodes (normalizeCode (codes s))}"
+    | none => "bad-args"
+  | ["vcode", h] =>
+    match hexCodes? h with
+    | some s => s!"v {b01 (codeValidate s)} {b01 (requiredCode s)}"
+    | none => "bad-args"
+  | ["vkey", h] =>
+    match hexCodes? h with
+    | some s => s!"v {b01 (keyValidate s)}"
+    | none => "bad-args"
+  | ["vid", h] =>
+    match hexCodes? h with
+    | some s => s!"v {b01 (identityCodeGeneric s)} {b01 (mxNational s)}"
+    | none => "bad-args"
+  | "vext" :: n :: rest =>
+    match parseNat? n with
+    | some n => match parseExt n rest [] with
+      | some (ms, []) => s!"v {b01 (extModel ms)}"
+      | _ => "bad-args"
+    | none => "bad-args"
+  | "vtot" :: n :: rest =>
+    match parseNat? n with
+    | some n => match parseCats n rest [] with
+      | some (cats, []) => s!"v {b01 (totalModel cats)}"
+      | _ => "bad-args"
     | none => "bad-args"
   | ["static"] => staticReport
   | _ => "bad-arity"
